@@ -72,7 +72,9 @@ func TestFreeCallers(t *testing.T) {
 		}()
 		return a, nil
 	}
-	cl, err := kmipclient.Dial("mem", kmipclient.WithDialerUnsafe(dial), kmipclient.EnforceVersion(kmip.V1_4))
+	// the client carries the library's own middlewares (a timeout that never comes, a correlation value): they are per call, too
+	cl, err := kmipclient.Dial("mem", kmipclient.WithDialerUnsafe(dial), kmipclient.EnforceVersion(kmip.V1_4),
+		kmipclient.WithMiddlewares(kmipclient.TimeoutMiddleware(10*time.Minute), kmipclient.CorrelationValueMiddleware(func() string { return "corr" })))
 	if err != nil {
 		t.Fatal(err)
 	}
